@@ -53,6 +53,34 @@ def rule_OUT(ctx, tier):
             if s["k"] == "assign" and s["rv"]["k"] == "agg" and s["rv"].get("variant") == "Rejected":
                 if variant_fact(ctx, st, bb, "Transport"):
                     rr.fail("rejected-on-transport", "ConfirmationStatus::Rejected is built on the transport-error arm", where=st.line_of(bb))
+    # a poll is never abandoned half way: the future of poll_best_tip is awaited directly, not raced against a timer or
+    # a signal (the SPV client records its progress only when the whole poll returns; a cancelled poll discards it, sets
+    # no reachability flag and re-delivers the same blocks on the next round)
+    mc = P.bodies.get("teos::chain_monitor::ChainMonitor::<'a, P, C, L>::monitor_chain::{closure#0}")
+    if mc is None:
+        rr.anchor_missing("ChainMonitor::monitor_chain")
+    else:
+        polls = [bb for bb, t in mc.calls() if (call_target(t) or "").endswith("::poll_best_tip")]
+        if not polls:
+            rr.fail("monitor-no-poll", "monitor_chain does not call poll_best_tip", where=mc.span)
+        for pb in polls:
+            me = og.strip(ctx.og.operand(mc, {"m": mc.term(pb)["dest"]}))
+            users = []
+            for bb, t in mc.calls():
+                if bb == pb:
+                    continue
+                for i in range(len(t.get("args", []))):
+                    a = og.strip(arg_origin(ctx, mc, bb, i))
+                    if a == me or (isinstance(a, tuple) and me in list(og.walk(a)) and not (call_target(t) or "").endswith(("Pin::<Ptr>::new_unchecked", "get_context", "Future::poll"))):
+                        users.append((bb, call_target(t) or "?"))
+                        break
+            direct = [u for u in users if u[1].endswith("IntoFuture>::into_future")]
+            own = (call_target(mc.term(pb)) or "") + "::{closure#0}"  # resuming the poll's own coroutine = polling it
+            other = [u for u in users if not u[1].endswith(("IntoFuture>::into_future", "Future>::poll", "Pin::<Ptr>::new_unchecked", "Future::poll")) and u[1] != own]
+            if direct and not other:
+                rr.ok("monitor_chain awaits poll_best_tip to completion (not raced or wrapped)", sample={"rule": "OUT", "poll future consumed by": [shortfn(u[1]) for u in users]})
+            else:
+                rr.fail("poll-can-be-cancelled", "the future of `poll_best_tip` is handed to `%s` instead of being awaited directly: a poll that outlasts it is dropped half way — its progress is discarded, no reachability flag is set and the same blocks are delivered again" % (", ".join(sorted({shortfn(u[1]) for u in other})) or "nothing"), where=mc.line_of(pb))
     h = P.require(CARRIER + "hang_until_bitcoind_reachable")
     if sites_containing(h, "Condvar", "wait"):
         rr.ok("hang_until_bitcoind_reachable waits on the condvar")
